@@ -32,7 +32,10 @@ MODELLED = [
     "(64 KiB tail coalescing, empty buffers ignored), newToWriteFile, Sendfile (clipping, inline loop in maxSendfileSize slices, "
     "queued with a dup'ed descriptor, Dup failure), flush (writeBuffer/writeFile, EINTR retry, EAGAIN stop, fatal errno), overflow, "
     "Write/Writev tails (close on a fatal error, modWrite), Close, calls on a closed connection",
-    "only tested (differential run + oracles), not modelled: the allocator behind the queued buffers (C20/C11), deadlines/timers "
+    "the model does not depend on the allocator behind the queued buffers (Config.BodyAllocator): it is a dimension of every tier of "
+    "the harness - default MemPool, mempool.NewAligned() (relocates on growth), mempool.NewSTD(), and an always-moving allocator that "
+    "returns a fresh buffer on every Append/Realloc and poisons the retired one - with the same oracles and the same model answers",
+    "only tested (differential run + oracles), not modelled: the allocators themselves (C20/C11), deadlines/timers "
     "(C16), the epoll side of modWrite/resetRead (C04; the isWAdded flag is carried by the model and reported as a coverage figure), "
     "UDP connection types (outside C01 by its statement), Seek/Stat/SetNonblock failures inside Sendfile",
 ]
